@@ -215,7 +215,11 @@ pub fn counter_src(max_n: u32) -> BoxedStrategy<EntrySrc> {
 pub fn entry_src(tier: Tier) -> BoxedStrategy<EntrySrc> {
     let max = tier.pick(600, 5000);
     let big = tier.pick(6000, 20000);
+    // joint boundary values: one to three entries made of empty / one-byte keys and values
+    let tk = prop_oneof![3 => Just(Blob::Lit(vec![])), 1 => Just(Blob::Lit(vec![0])), 1 => Just(Blob::Lit(vec![0xff]))];
+    let tv = prop_oneof![3 => Just(Blob::Lit(vec![])), 1 => Just(Blob::Lit(vec![0]))];
     prop_oneof![
+        1 => vec((tk, tv), 1..=3).prop_map(EntrySrc::List),
         3 => list_src(key_tiny(), val_any(big), 200),
         3 => list_src(key_ascii(), val_any(big), max),
         2 => list_src(key_bytes(), val_any(big), max),
